@@ -70,7 +70,8 @@ def lloyd_trace(tid, Xi, k, init, max_iter, rng, dtype=numpy.float64):
         warnings.simplefilter("ignore")
         with Wrap() as ev:
             try:
-                km = KMeansL1L2(n_clusters=k, norm="L1", init=numpy.array(init, dtype=dtype), n_init=1, max_iter=max_iter)
+                km = KMeansL1L2(n_clusters=k, norm="L1", init=numpy.array(init, dtype=dtype), n_init=1, max_iter=max_iter,
+                                tol=rng.choice([1e-4, 1e-4, 0.05, 0.25, 1.0]))
                 X0 = X.copy()
                 km.fit(X)
                 ev.append(dict(a="result", centers=enc_pts(km.cluster_centers_), labels=[int(v) for v in km.labels_],
@@ -91,7 +92,8 @@ def final_trace(tid, Xi, k, init, seed, n_init, rng, dtype):
     with warnings.catch_warnings():
         warnings.simplefilter("ignore")
         try:
-            km = KMeansL1L2(n_clusters=k, norm="L1", init=init, n_init=n_init, max_iter=10, random_state=seed).fit(X)
+            km = KMeansL1L2(n_clusters=k, norm="L1", init=init, n_init=n_init, max_iter=10, random_state=seed,
+                            tol=rng.choice([1e-4, 0.05, 0.25, 1.0])).fit(X)
             t["ev"] = [dict(a="result", centers=enc_pts(km.cluster_centers_), labels=[int(v) for v in km.labels_],
                             inertia=enc_val(km.inertia_), probes=probes_of(km, X, rng, d))]
         except Exception as e:
@@ -130,15 +132,18 @@ def run(ctx):
     boot.load()
     thorough = ctx.tier == "thorough"
     invs = "INVARIANT FitSucceeds\nINVARIANT NearestLabel\nINVARIANT InertiaIsSum\nINVARIANT CentresInBox\n"
-    cfg1 = ("SPECIFICATION Spec\nCONSTANTS Lattice = %s\n Dim = 1\n MaxPts = %d\n MaxK = 3\n MaxIter = 3\n DEV_EmptyClusterNaN = FALSE\n"
+    cfg1 = ("SPECIFICATION Spec\nCONSTANTS Lattice = %s\n Dim = 1\n MaxPts = %d\n MaxK = 3\n MaxIter = 3\n StopRule = \"code\"\n DEV_EmptyClusterNaN = FALSE\n"
             % (("{0, 2, 4, 6, 8}", 5) if thorough else ("{0, 2, 4, 6}", 5)))
-    cfg2 = ("SPECIFICATION Spec\nCONSTANTS Lattice = {0, 2, 4}\n Dim = 2\n MaxPts = %d\n MaxK = %d\n MaxIter = 3\n DEV_EmptyClusterNaN = FALSE\n"
+    cfg2 = ("SPECIFICATION Spec\nCONSTANTS Lattice = {0, 2, 4}\n Dim = 2\n MaxPts = %d\n MaxK = %d\n MaxIter = 3\n StopRule = \"code\"\n DEV_EmptyClusterNaN = FALSE\n"
             % ((4, 3) if thorough else (4, 2)))
     r = ctx.add_mc("KMediansL1 d=1", tlc.run("KMediansL1", cfg1 + invs, workers=16, coverage=True, timeout=2400, heap="8g"))
     ctx.require_coverage(r, ["DoE", "DoM", "DoTrack", "DoFinal"], "KMediansL1")
     ctx.add_mc("KMediansL1 d=2", tlc.run("KMediansL1", cfg2 + invs, workers=16, timeout=2400, heap="8g"))
+    # the requirements must not depend on when the loop stops: same model with an arbitrary stopping rule
+    ctx.add_mc("KMediansL1 d=1 StopRule=any", tlc.run("KMediansL1", cfg1.replace('"code"', '"any"') + invs, workers=16,
+                                                       timeout=2400, heap="8g"))
     ctx.add_mc("KMediansL1[DEV_EmptyClusterNaN]", tlc.run(
-        "KMediansL1", "SPECIFICATION Spec\nCONSTANTS Lattice = {0, 2, 4}\n Dim = 1\n MaxPts = 3\n MaxK = 2\n MaxIter = 3\n"
+        "KMediansL1", "SPECIFICATION Spec\nCONSTANTS Lattice = {0, 2, 4}\n Dim = 1\n MaxPts = 3\n MaxK = 2\n MaxIter = 3\n StopRule = \"code\"\n"
         " DEV_EmptyClusterNaN = TRUE\nINVARIANT FitSucceeds\n", workers=4), expect_violation="FitSucceeds")
     rng = ctx.rng
     groups = {}
@@ -179,7 +184,7 @@ def run(ctx):
         ctx.case(("c2s", mode, tuple(map(tuple, Xi)), k), nontrivial=k >= 2)
         if mode == "array":
             init = [list(rng.choice(Xi)) if rng.random() < 0.7 else [rng.randint(0, R) for _ in range(d)] for _ in range(k)]
-            mi = rng.choice([1, 3])
+            mi = rng.choice([1, 3, 3])
             groups.setdefault((d, mi), []).append(lloyd_trace(tid, Xi, k, init, mi, rng, dtype))
         elif mode == "l2":
             try:
@@ -189,7 +194,7 @@ def run(ctx):
         else:
             groups.setdefault((d, 3), []).append(final_trace(tid, Xi, k, mode, rng.randint(0, 999), rng.choice([1, 3]), rng, dtype))
     for (d, mi), trs in sorted(groups.items()):
-        cfg = ("SPECIFICATION TSpec\nCONSTANTS Lattice = {}\n Dim = %d\n MaxPts = 0\n MaxK = 0\n MaxIter = %d\n DEV_EmptyClusterNaN = FALSE\n"
+        cfg = ("SPECIFICATION TSpec\nCONSTANTS Lattice = {}\n Dim = %d\n MaxPts = 0\n MaxK = 0\n MaxIter = %d\n StopRule = \"any\"\n DEV_EmptyClusterNaN = FALSE\n"
                "CHECK_DEADLOCK FALSE\n" % (d, mi))
         verdicts, st = tlc.validate("KMediansTrace", cfg, trs, timeout=2400)
         ctx.states += st["states"]
@@ -207,7 +212,9 @@ def run(ctx):
                 "validated step by step; code->spec: random data (n<=40, d<=3, k<=5, duplicates, float32) with array / "
                 "'k-means++' / 'random' init and the norm='L2' comparison with scikit-learn. non-trivial = k >= 2." % stride)
     ctx.assumptions += ["integer-valued data, so medians, Manhattan distances and inertia are exact after doubling",
-                        "uniform sample weights (non-uniform weights raise NotImplementedError in the code by design)"]
+                        "uniform sample weights (non-uniform weights raise NotImplementedError in the code by design)",
+                        "traces are validated with StopRule = any: the iteration at which the code stops is not constrained "
+                        "(the property does not depend on it; TLC checks the requirements under both rules)"]
 
 
 if __name__ == "__main__":
